@@ -3,9 +3,11 @@ Require Import Nib.C17.AnteFacts Nib.C17.Model Nib.Gen.C17Facts.
 
 Definition current_cfg : cfg :=
   cfg_of_facts nonevm_chain evm_chain ext_switch guard_commission commission_create_site commission_edit_site
-               commission_scan max_commission_raw wasm_handler registered_ext_options.
+               commission_scan max_commission_raw wasm_handler registered_ext_options
+               routed_msg_carriers routed_opaque_any.
 
 (** … and for gentxs delivered from InitChain *)
 Definition current_genesis_cfg : cfg :=
   genesis_cfg_of_facts genesis_chain evm_chain ext_switch guard_commission commission_create_site commission_edit_site
-                       commission_scan max_commission_raw wasm_handler registered_ext_options.
+                       commission_scan max_commission_raw wasm_handler registered_ext_options
+               routed_msg_carriers routed_opaque_any.
